@@ -639,3 +639,15 @@ impl<Db: Database> StorageManager<Db> {
         }
     }
 }
+
+#[cfg(facebook_akd_verif)]
+impl<Db: Database> StorageManager<Db> {
+    /// Verification hook: exposes the private `compare_db_and_transaction_records`.
+    pub(crate) fn verif_compare_db_and_transaction_records(
+        state_epoch: u64,
+        transaction_value: ValueState,
+        flag: ValueStateRetrievalFlag,
+    ) -> Option<ValueState> {
+        Self::compare_db_and_transaction_records(state_epoch, transaction_value, flag)
+    }
+}
